@@ -239,8 +239,8 @@ def gen_valid(chk):
         spec['blocks'][0]['view'] = dict(kind='raw')
         spec['src'] = 'ipn:%d.%d' % (val, val)
         cases.append(('boundary', bg.fill_crc(spec)))
-    # big payloads (BTSD length heads of 3 and 5 octets)
-    for size in ([65535, 65536] if chk.quick() else [65535, 65536, 65537, 200000]):
+    # big payloads (BTSD length heads of 3 and 5 octets); the model side is compared through digests (big_suite)
+    for size in ([4000, 65536] if chk.quick() else [4000, 65535, 65536, 65537, 200000]):
         cases.append(('big', bg.gen_bundle(rng, payload_sizes=(size,), admin=False, n_ext=1, **safe)))
     for _ in range(500 if chk.quick() else 20000):
         cases.append(('random', bg.gen_bundle(rng, **safe)))
@@ -392,6 +392,62 @@ def gen_malformed(chk):
 def coq_octets(data):
     from common import coq_bytes
     return coq_bytes(data)
+
+
+BIG_ENC = ('(fun b : bundle => let o := impl_encode_bundle b in '
+           '(N.of_nat (length o), DTN.Lib.Crc.crc32c o, [bytes_eqb o (impl_encode_bundle (with_crc_bundle b)); wf_bundleb b]))')
+BIG_DEC = ('(fun bs : bytes => match decode_bundle bs with '
+           '| Some b => Some (ren_primary b.(prim), map (fun k => (fst (fst (ren_cblock k)), N.of_nat (length (btsd k)), '
+           'DTN.Lib.Crc.crc32c (btsd k), ren_opt (bcrc k))) b.(blocks), bytes_eqb (impl_encode_bundle b) bs) | None => None end)')
+
+
+def big_suite(chk, cases, pending):
+    ''' Bundles with BTSD given by mkdata(seed, len): the oracle runs as usual on the implementation; the model
+    side is compared through (length, CRC-32C) digests evaluated inside Coq. '''
+    import resource
+    bad = []
+    try:
+        (_soft, hard) = resource.getrlimit(resource.RLIMIT_STACK)
+        resource.setrlimit(resource.RLIMIT_STACK, (hard, hard))
+        if hard != resource.RLIM_INFINITY and hard < 2 ** 28:
+            cases = [(label, spec) for (label, spec) in cases if len(bg.encode(spec)) < 10000]
+    except (ValueError, OSError):
+        cases = [(label, spec) for (label, spec) in cases if len(bg.encode(spec)) < 10000]
+    impl = []
+    for (label, spec) in cases:
+        raw = bg.encode(spec)
+        obs = dict(enc=impl_encode_modes(spec), dec=impl_decode(raw), raw=raw)
+        impl.append(obs)
+        chk.case(hashlib.sha1(raw).hexdigest(), nontrivial=True)
+        chk.count('stream', 'big')
+        chk.count('big_payload_octets', len(bytes.fromhex(spec['blocks'][-1]['data'])))
+        probs = oracle(spec, obs['enc'], obs['dec'])
+        if probs:
+            report(chk, pending, classify(spec) or 'C02 / %s of a well-formed bundle (big payload)' % probs[0][0],
+                   probs[0][1], dict(kind='spec', spec=spec))
+    menc = chk.coq_eval('bigenc', ['Lib.Cbor', 'Lib.Crc', 'Model.Bundle'], [bg.coq_bundle(spec) for (_l, spec) in cases], BIG_ENC, chunk=1)
+    mdec = chk.coq_eval('bigdec', ['Lib.Cbor', 'Lib.Crc', 'Model.Bundle'], [bg.coq_encoded(spec) for (_l, spec) in cases], BIG_DEC, chunk=1)
+    for ((label, spec), obs, enc, dec) in zip(cases, impl, menc, mdec):
+        (length, digest, flags) = enc
+        for got in obs['enc']:
+            if got.startswith('raise:') or (len(got) // 2, bg.crc32c(bytes.fromhex(got))) != (length, digest):
+                bad.append('big %d: implementation encoding differs from the model (length/CRC-32C digest)' % len(obs['raw']))
+        if not all(flags):
+            bad.append('big: model flags %r' % (flags,))
+        if dec is None or not obs['dec']['ok']:
+            if (dec is None) != (not obs['dec']['ok']):
+                bad.append('big: model %s, implementation %s' % ('rejects' if dec is None else 'decodes', obs['dec'].get('exc', 'decodes')))
+            continue
+        val = dec[1]
+        got = obs['dec']['spec']
+        want_blocks = [((blk['type'], blk['num'], blk['flags'], blk['crc_type']), len(blk['data']) // 2,
+                        bg.crc32c(bytes.fromhex(blk['data'])), blk['crc']) for blk in got['blocks']]
+        model_blocks = [(tuple(scal), size, digest, (bytes(crc[0]).hex() if crc else None)) for (scal, size, digest, crc) in val[4]]
+        pri = bg.spec_of_model(tuple(val[:4]) + ([],))
+        if model_blocks != want_blocks or dict(pri, blocks=got['blocks']) != got or val[5] is not True \
+                or obs['dec']['reenc'] != obs['raw'].hex():
+            bad.append('big: decoded fields / re-encoding differ')
+    return bad
 
 
 def run_streams(chk, cases, pending):
@@ -657,7 +713,11 @@ def main():
     pending = {}
     try:
         valid = gen_valid(chk)
+        big = [(label, spec) for (label, spec) in valid if label == 'big']
+        valid = [(label, spec) for (label, spec) in valid if label != 'big']
+        bad_big = big_suite(chk, big, pending)
         (bad_enc, bad_dec, impl, _m) = run_streams(chk, valid, pending)
+        bad_enc += bad_big
         bad_views = typed_view_suite(chk, valid, impl)
         findings = gen_findings(chk)
         (fbad_enc, fbad_dec, _fimpl, _fm) = run_streams(chk, findings, pending)
